@@ -5,7 +5,7 @@ Import ListNotations.
 
 Inductive exn :=
 | EAssertion | ELookup | EType | EUnicodeEncode | EUnicodeDecode | EValue | EKey | EOverflow | EAttribute
-| EUnboundLocal | ERecursion
+| EUnboundLocal | ERecursion | EIndex
 | ELibContent | ELibOrder | ELibOptionValue | ELibChoice | ELibUnknownOption   (* the library's own error family (writer / DOM side) *)
 | EUnmodelled        (* the case left the modelled universe (codec not executed by the model): harness discards it *)
 | EOracleMiss.       (* the per-case json oracle has no answer: harness error *)
